@@ -97,12 +97,24 @@ func limitChunkMatches(file *zoekt.FileMatch, limit int) int {
 			// a trailing newline.
 			n := cm.Ranges[len(cm.Ranges)-1].End.LineNumber - cm.Ranges[limit-1].End.LineNumber
 			if n > 0 {
-				for b := len(cm.Content) - 1; b >= 0; b-- {
+				// Content is made of whole lines. When it ends with the
+				// terminator of its last line (every chunk that is not cut
+				// short by the end of a file without final newline), that
+				// newline does not begin another line: do not count it, and
+				// keep the terminator of the new last line instead.
+				end, terminated := len(cm.Content), false
+				if end > 0 && cm.Content[end-1] == '\n' {
+					end, terminated = end-1, true
+				}
+				for b := end - 1; b >= 0; b-- {
 					if cm.Content[b] == '\n' {
 						n -= 1
 					}
 					if n == 0 {
 						cm.Content = cm.Content[:b]
+						if terminated {
+							cm.Content = cm.Content[:b+1]
+						}
 						break
 					}
 				}
